@@ -99,7 +99,8 @@ class Driver:
         else:
             d = zt.AddrModeAddress(addr_mode=zt.AddrMode.Broadcast, address=zt.BroadcastAddress.ALL_ROUTERS_AND_COORDINATOR)
         pkt = zt.ZigbeePacket(
-            src=zt.AddrModeAddress(addr_mode=zt.AddrMode.NWK, address=zt.NWK(0)), src_ep=1, dst=d, dst_ep=1, tsn=rid & 0xFF,
+            src=zt.AddrModeAddress(addr_mode=zt.AddrMode.NWK, address=zt.NWK(0)), src_ep=1, dst=d, dst_ep=1,
+            tsn=(rid & 0xFF) if getattr(self, "fixed_tsn", None) is None else self.fixed_tsn,
             profile_id=0x0104, cluster_id=6, data=zt.SerializableBytes(bytes([rid])),
             extended_timeout=ext, source_route=[zt.NWK(0x2222)] if route else None, radius=0, non_member_radius=3)
         t = self.loop.create_task(self._send(rid, pkt))
@@ -227,7 +228,9 @@ def run_script(version, script):
     try:
         for op in script:
             k = op[0]
-            if k == "send":
+            if k == "tsn":
+                d.fixed_tsn = op[1]      # the upper layer's transaction number: the same for every packet from now on
+            elif k == "send":
                 d.send(rid, op[1], op[2], op[3], op[4])
                 rid += 1
             elif k == "reply":
@@ -362,6 +365,22 @@ class Check(PropertyCheck):
             ]
             for s in base:
                 cases.append({"v": v, "script": s})
+            # the packets' transaction numbers are the upper layer's business and may coincide (a retransmitted ZCL frame, two
+            # clusters counting independently): requests are told apart by the tag the library gives them, not by the TSN
+            tsn_base = [
+                [("tsn", 0x42), ("send", "unicast", 0x1000, False, False), ("reply", 0), ("confirm", 0, 1, 0),
+                 ("send", "unicast", 0x1000, False, False), ("reply", 0), ("confirm", 0, 1, 0), ("confirm", 1, 1, 0)],
+                [("tsn", 0x42), ("send", "unicast", 0x1000, False, False), ("reply", 0), ("confirm", 0, 1, 0),
+                 ("send", "unicast", 0x1000, False, False), ("reply", 0), ("confirm", 0, 0, 0), ("confirm", 1, 1, 0)],
+                [("tsn", 0x42), ("send", "unicast", 0x1000, False, False), ("send", "unicast", 0x1000, False, False), ("reply", 0),
+                 ("reply", 0), ("confirm", 0, 1, 0), ("confirm", 1, 1, 0)],
+                [("tsn", 0x42), ("send", "unicast", 0x1000, False, False), ("send", "unicast", 0x1000, False, False), ("reply", 0),
+                 ("reply", 0), ("confirm", 1, 0, 0), ("confirm", 0, 1, 0)],
+                [("tsn", 0x07), ("send", "unicast", 0x1001, False, False), ("send", "unicast", 0x1001, False, False), ("reply", 0),
+                 ("reply", 0), ("confirm", 0, 1, 0), ("timer",), ("timer",)],
+            ]
+            for s in tsn_base:
+                cases.append({"v": v, "script": s})
             for _ in range(120 if tier == "quick" else 800):
                 s = []
                 for _ in range(rng.randrange(3, 16)):
@@ -444,6 +463,14 @@ class Check(PropertyCheck):
             if ev[0] == "send":
                 created[ev[1]] = idx
                 nsetup[ev[1]] = ev[4] if ev[2] == 0 else 0
+                # a request ends by returning (accepted + confirmed), by a delivery error (refused, still busy, failed
+                # confirmation) or by a timeout -- never by being turned away with some other controller error in the very call
+                # that made it, before anything was sent for it
+                for e in st:
+                    if e[0] == "done" and e[1] == ev[1] and e[2] == 4:
+                        return (f"request {ev[1]} (destination {ev[3]:#06x}) was turned away with a controller error in the call that "
+                                f"made it, before any command was sent for it (other requests in flight: "
+                                f"{sorted(r for r in created if r != ev[1])})")
             if ev[0] == "reply":
                 rid, enq = ev[1], ev[2]
                 if last_cmd.get(rid) == "send" and enq == 1:
